@@ -246,7 +246,17 @@ func stableName(fn string) string {
 // in a bounded number of steps once the others stop interfering, so a run that
 // is still going after a budget several times the longest legitimate run is a
 // livelock (a retry loop that cannot succeed, a spin on a flag nobody sets).
+//
+// An implementation other than the pinned one may simply need more steps for the
+// same workload (hundreds of goroutines woken by every Broadcast of one condition
+// variable). The two are told apart by what happened lately: a run in which a call
+// returned, a value changed hands or a task finished within the last third of the
+// budget was cut short while working, and is counted as truncated, not reported;
+// a livelock shows nothing of the kind.
 func NoProgress(o *simrt.Outcome) *Violation {
+	if o.Steps-o.LastProgress < o.Steps/3 {
+		return nil
+	}
 	return &Violation{Signature: "no-progress", Detail: fmt.Sprintf("the run was still going after %d steps (step budget); tasks alive: %v", o.Steps, o.Alive)}
 }
 
